@@ -26,10 +26,16 @@ import (
 )
 
 type (
-	Config          = tls.Config
-	Certificate     = tls.Certificate
-	ConnectionState = tls.ConnectionState
+	Config             = tls.Config
+	Certificate        = tls.Certificate
+	ConnectionState    = tls.ConnectionState
+	ClientSessionCache = tls.ClientSessionCache
+	ClientSessionState = tls.ClientSessionState
 )
+
+func NewLRUClientSessionCache(capacity int) ClientSessionCache {
+	return tls.NewLRUClientSessionCache(capacity)
+}
 
 const (
 	VersionTLS10 = tls.VersionTLS10
@@ -61,6 +67,8 @@ type DialRecord struct {
 	CustomVerify       bool
 	MinVersion         uint16
 	MaxVersion         uint16
+	SessionCache       bool // a ClientSessionCache is set: later connections present a server-issued ticket
+	ClientCerts        bool
 }
 
 func Setup(m Mode, hook func(DialRecord)) {
@@ -91,6 +99,8 @@ func record(addr string, c *Config) {
 		r.CustomVerify = c.VerifyPeerCertificate != nil || c.VerifyConnection != nil
 		r.MinVersion = c.MinVersion
 		r.MaxVersion = c.MaxVersion
+		r.SessionCache = c.ClientSessionCache != nil
+		r.ClientCerts = len(c.Certificates) > 0 || c.GetClientCertificate != nil
 	}
 	h(r)
 }
